@@ -2,7 +2,10 @@
 
 package scenario
 
-import "github.com/LindsayBradford/crem/internal/pkg/annealing"
+import (
+	"github.com/LindsayBradford/crem/internal/pkg/annealing"
+	"github.com/LindsayBradford/crem/internal/pkg/model"
+)
 
 // VerifPrepareRun performs exactly the set-up part of Runner.run for run number runNumber
 // (DeepClone of the prototype annealer, run id assignment, observer wiring) and returns the
@@ -17,3 +20,18 @@ func (runner *Runner) VerifPrepareRun(runNumber uint64) annealing.Annealer {
 
 // VerifPrototype returns the annealer every run is cloned from.
 func (runner *Runner) VerifPrototype() annealing.Annealer { return runner.annealer }
+
+// VerifC08WrapDecompressionModel replaces the saver's shared decompression model by wrap(model): the C08 probe wraps
+// it in a forwarding model that records every access together with the state of the mutex.
+func (s *Saver) VerifC08WrapDecompressionModel(wrap func(model.Model) model.Model) {
+	s.decompressionModel = wrap(s.decompressionModel)
+}
+
+// VerifC08DecompressionLockHeld tells whether decompressionMutex is held at this moment (by anybody).
+func (s *Saver) VerifC08DecompressionLockHeld() bool {
+	if s.decompressionMutex.TryLock() {
+		s.decompressionMutex.Unlock()
+		return false
+	}
+	return true
+}
